@@ -71,6 +71,7 @@ func runC40(w *World, r *Report) {
 	r.Rule("R-C40-3", "explicit panic sites reachable from a handler are a frozen list", 2)
 	r.Rule("R-C40-4", "integer division / remainder: constant non-zero divisor, or behind a test of the divisor against zero", 8)
 	r.Rule("R-C40-5", "no dereference of a pointer on the edge where it was just found nil", 0)
+	r.Rule("R-C40-6", "an integer parsed from text (Atoi / ParseInt) in a handler is compared with a bound (<, <=, >, >=) on every path before it is used as a slice bound, a length, an index or an argument of repository code", 3)
 
 	routes := extractRoutes(w)
 	if len(routes) < 50 {
@@ -258,11 +259,177 @@ func runC40(w *World, r *Report) {
 		c40NilContradictions(w, r, fn, mkKey)
 	}
 
+	// ---- R-C40-6 integers parsed from text are range-tested before they size or index anything
+	nParsed := 0
+
+	for _, fn := range fns {
+		count := map[string]int{}
+
+		allInstrs(fn, func(in ssa.Instruction) {
+			pc, ok := in.(*ssa.Call)
+			if !ok {
+				return
+			}
+
+			switch callID(pc.Common()) {
+			case "strconv.Atoi", "internal/util/strings.Atoi", "strconv.ParseInt":
+			default:
+				return
+			}
+
+			// the integer result
+			var val ssa.Value
+
+			for _, ref := range *pc.Referrers() {
+				if ex, ok := ref.(*ssa.Extract); ok && ex.Index == 0 {
+					val = ex
+				}
+			}
+
+			if val == nil {
+				return
+			}
+
+			nParsed++
+
+			// values carrying the parsed number: through phis, conversions and local cells
+			carries := map[ssa.Value]bool{val: true}
+
+			for changed := true; changed; {
+				changed = false
+
+				for v := range carries {
+					for _, ref := range *v.Referrers() {
+						switch x := ref.(type) {
+						case *ssa.Phi:
+							if !carries[x] {
+								carries[x] = true
+								changed = true
+							}
+						case *ssa.Convert:
+							if !carries[x] {
+								carries[x] = true
+								changed = true
+							}
+						case *ssa.Store:
+							if x.Val == v {
+								if cell := localCell(x.Addr); cell != nil {
+									for _, cr := range *cell.Referrers() {
+										if u, ok := cr.(*ssa.UnOp); ok && !carries[u] {
+											carries[u] = true
+											changed = true
+										}
+									}
+								}
+							}
+						}
+					}
+				}
+			}
+
+			// edges after which the number has been compared with something: both edges of an
+			// ordering test (<, <=, >, >=) on a carrier, and the "equal" edge of ==/!= against a constant
+			cuts := cutEdges(fn, func(f Fact) bool {
+				switch f.Kind {
+				case "cmp":
+					switch f.Op {
+					case token.LSS, token.LEQ, token.GTR, token.GEQ:
+						return carries[f.X] || carries[f.Y]
+					}
+				case "eq":
+					return carries[f.V]
+				}
+
+				return false
+			})
+
+			// sizing / indexing / handing on to repository code
+			isUse := func(i ssa.Instruction) bool {
+				switch x := i.(type) {
+				case *ssa.Slice:
+					return carries[x.Low] || carries[x.High]
+				case *ssa.MakeSlice:
+					return carries[x.Len] || carries[x.Cap]
+				case *ssa.IndexAddr:
+					return carries[x.Index]
+				case *ssa.Index:
+					return carries[x.Index]
+				case *ssa.Store:
+					// packed into a []any for a variadic call
+					if mi, ok := x.Val.(*ssa.MakeInterface); ok && carries[mi.X] {
+						if ia, isIdx := x.Addr.(*ssa.IndexAddr); isIdx {
+							// the array is sliced and handed to repository code (not to fmt / logging)
+							for _, r1 := range *ia.X.Referrers() {
+								sl, ok := r1.(*ssa.Slice)
+								if !ok {
+									continue
+								}
+
+								for _, r2 := range *sl.Referrers() {
+									if c, ok := r2.(*ssa.Call); ok && isRepoCallee(c.Common()) {
+										id := callID(c.Common())
+										if !strings.Contains(id, "/ui.") && !strings.Contains(id, "/i18n.") && !strings.Contains(id, "/errors.") {
+											return true
+										}
+									}
+								}
+							}
+						}
+					}
+				case *ssa.Call:
+					if !isRepoCallee(x.Common()) {
+						return false
+					}
+
+					id := callID(x.Common())
+					if strings.Contains(id, "/ui.") || strings.Contains(id, "/i18n.") || strings.Contains(id, "/errors.") {
+						return false // logging, messages
+					}
+
+					for _, a := range x.Call.Args {
+						if carries[a] {
+							return true
+						}
+
+						if mi, ok := a.(*ssa.MakeInterface); ok && carries[mi.X] {
+							return true
+						}
+					}
+				}
+
+				return false
+			}
+
+			key := fnKey(fn) + "|parsed integer is range-tested before use"
+			count[key]++
+
+			if n := count[key]; n > 1 {
+				key += "#" + sprintInt(n)
+			}
+
+			if use := pathAvoiding(in, cuts, func(ssa.Instruction) bool { return false }, isUse); use != nil {
+				if why, ok := c40ParsedOK[key]; ok {
+					r.Except("R-C40-6", key, w.pos(in.Pos()), why)
+				} else {
+					r.Violate("R-C40-6", key, w.pos(in.Pos()), "the number parsed here reaches "+w.pos(use.Pos())+" without ever being compared with a bound: a negative or huge value from the request sizes or indexes something there")
+				}
+			} else {
+				r.Discharge("R-C40-6", key, w.pos(in.Pos()), "compared with a constant bound on every path to a use (or not used to size, index or call)")
+			}
+		})
+	}
+
+	r.Unit("parsed_integers", nParsed)
+
 	r.Unit("pointer_nil_tests_examined", c40NilTests)
 
 	if c40NilTests < 100 {
 		r.Violate("R-C40-5", "reachable functions|pointer nil tests examined", "", "only "+sprintInt(c40NilTests)+" nil tests of pointers were found in the reachable set (expected several hundred): the rule is not looking at the code it should")
 	}
+}
+
+var c40ParsedOK = map[string]string{
+	"router.LogHandler|parsed integer is range-tested before use#2": "the session number to filter log lines by: it is only compared for equality with the session field of each line (ui.TailFiltered), never used as a size or index",
 }
 
 var c40IndexOK = map[string]string{
